@@ -3,6 +3,7 @@
 package main
 
 import (
+	"encoding/json"
 	"fmt"
 	"math/rand"
 	"reflect"
@@ -137,6 +138,7 @@ func (d *Driver) GovParam(module, path, val string) bool {
 	if !setLeaf(target, path, val) {
 		return false
 	}
+	ev.Args["module"], ev.Args["requested"] = module, flattenParams(target.Interface())
 	if vb, ok := msg.(sdk.HasValidateBasic); ok {
 		if err := vb.ValidateBasic(); err != nil { // a governance proposal carrying it would be rejected at submission
 			ev.OK, ev.Log = false, "ValidateBasic: "+truncate(err.Error(), 200)
@@ -185,3 +187,55 @@ func genParamsSchedule(r *rand.Rand) []Step {
 }
 
 var _ = fmt.Sprintf
+
+// ---- parameter registry (extended specification, pseudo-property EXT) ----
+// Every module's Params as a flat map leaf -> string (the JSON form of the stored value), projected at every
+// observation point; a governance MsgUpdateParams carries the REQUESTED params in the same form, so the
+// specification can state "only governance changes parameters, and an accepted update stores what was asked".
+
+func flattenJSON(prefix string, v any, out map[string]any) {
+	switch x := v.(type) {
+	case map[string]any:
+		if len(x) == 0 && prefix != "" {
+			out[prefix] = "{}"
+		}
+		for k, e := range x {
+			p := k
+			if prefix != "" {
+				p = prefix + "." + k
+			}
+			flattenJSON(p, e, out)
+		}
+	case nil:
+		out[prefix] = "null"
+	case string:
+		out[prefix] = x
+	default: // numbers, booleans, arrays: their JSON text
+		b, _ := json.Marshal(x)
+		out[prefix] = string(b)
+	}
+}
+
+func flattenParams(p any) map[string]any {
+	out := map[string]any{}
+	b, err := json.Marshal(p)
+	if err != nil {
+		return out
+	}
+	var g any
+	if json.Unmarshal(b, &g) != nil {
+		return out
+	}
+	flattenJSON("", g, out)
+	return out
+}
+
+func (c *Chain) projectParams(ctx sdk.Context) map[string]any {
+	out := map[string]any{}
+	for _, m := range paramModules {
+		if cp := c.currentParams("/elys."+m+".MsgUpdateParams", ctx); cp != nil {
+			out[m] = flattenParams(cp)
+		}
+	}
+	return out
+}
